@@ -68,7 +68,7 @@ def rule_single_writer(ctx, rid="single-writer"):
         n_raw += 1
         r.seen()
         cs = _conds(f, n)
-        r.check(flag["k"] == "bool" and f.qn == "output_text" and (("pc->Is(CT_IGNORED)", True) in cs or ("pc->Is(CT_JUNK) || pc->Is(CT_IGNORED)", True) in cs), "add_text(raw)<-%s/%s" % (f.qn, expr_str(f, a[0])[:30]), db.loc(f, n),
+        r.check(flag["k"] == "bool" and f.qn == "output_text" and any(pol is True and set(x.strip() for x in t.split(" || ")) <= {"pc->Is(CT_IGNORED)", "pc->Is(CT_JUNK)"} and "pc->Is(CT_IGNORED)" in t for t, pol in cs), "add_text(raw)<-%s/%s" % (f.qn, expr_str(f, a[0])[:30]), db.loc(f, n),
                 "`%s` takes add_text()'s raw path, which bypasses add_char(): line breaks inside that text are written as they were read, not as "
                 "cpd.newline (controlling conditions: %s)" % (expr_str(f, n["i"])[:60], cs[-3:]))
     r.require(n_raw >= 1, "no caller passes is_ignored = true to add_text()")
